@@ -93,16 +93,6 @@ fn bump_scalar_in<T: concordium_base::common::Serial + concordium_base::common::
     deser::<T>(&b)
 }
 
-struct Cfg {
-    n: u8,
-    t: u8,
-    v1: bool,
-    n_attrs: usize,
-    reveal: &'static str,
-    max_accounts: u8,
-    counter: u8,
-    existing: bool,
-}
 
 pub fn run(ctx: &ChildCtx, sh: &mut Shard) {
     for idx in ctx.indices() {
@@ -135,7 +125,6 @@ fn pipeline(ctx: &ChildCtx, sh: &mut Shard, idx: u64, r: &mut CRng) {
         _ => max_accounts,
     };
     let existing = r.0.chance(1, 2);
-    let cfg = Cfg { n, t, v1, n_attrs, reveal, max_accounts, counter, existing };
     let cfg_json = json!({"ars": n, "threshold": t, "identity_object_version": if v1 {1} else {0}, "attributes": n_attrs, "revealed": reveal, "max_accounts": max_accounts, "counter": counter, "existing_account": existing});
     let cfg_sig = format!("n{}:t{}:v{}:a{}:{}:max{}:c{}:{}", n, t, v1 as u8, n_attrs, reveal, max_accounts, counter, if existing { "existing" } else { "new" });
     sh.hit(&format!("cfg.ars.{}", n));
@@ -416,7 +405,7 @@ fn pipeline(ctx: &ChildCtx, sh: &mut Shard, idx: u64, r: &mut CRng) {
     }
 
     // ---- rejection of every single-field perturbation
-    let mut rej = |sh: &mut Shard, what: &str, sub: &str, c2: &Cdi, ip: &IpInfo<IpPairing>, ars: &BTreeMap<ArIdentity, ArInfo<ArCurve>>, gc: &GlobalContext<ArCurve>, noe2: &Either<TransactionTime, AccountAddress>| {
+    let rej = |sh: &mut Shard, what: &str, sub: &str, c2: &Cdi, ip: &IpInfo<IpPairing>, ars: &BTreeMap<ArIdentity, ArInfo<ArCurve>>, gc: &GlobalContext<ArCurve>, noe2: &Either<TransactionTime, AccountAddress>| {
         sh.evaluations += 1;
         sh.hit("reject.expected");
         sh.hit(&format!("perturb.cdi.{}", what));
@@ -725,7 +714,6 @@ fn pipeline(ctx: &ChildCtx, sh: &mut Shard, idx: u64, r: &mut CRng) {
             Err(_) => sh.hit("counter.max+1.creation_panicked"),
         }
     }
-    let _ = &cfg;
     sh.nontrivial(fnv(cfg_sig.as_bytes()) ^ fnv(&cdi_bytes));
     sh.sample(|| {
         let mut c = cfg_json.clone();
